@@ -1,6 +1,8 @@
 """Job lists of the device-level properties (C02-C06, C08, C11, C13-C17) over the scenario
 families of DESIGN.md section 5.  Every analysis = one concrete model shape with symbolic
 times; this module only *lists* them, harness/lines.py builds and monitors them."""
+import copy
+
 from harness import lines as L
 from harness.lines import mk_sub, serial, with_ops
 from harness.util import pack, split_by_order
@@ -287,15 +289,18 @@ def _subs(tier, prop):
         if q:
             shapes = [('H', 3, {}), ('P', 3, {}), ('B', 3, {1: 1}), ('B', 3, {1: 2}), ('HP', 2, {}), ('BP', 2, {1: 2}), ('PB', 2, {2: 1})]
         else:
+            # sized to the thorough CPU budget (64 jobs x 300 s): J = 1 with 4 parts, J = 2 with 3 parts (one zero at most),
+            # J = 3 with 2 parts (all times non-zero or sink instant)
             shapes = [(k, 4, {1: cap}) for k in 'HPB' for cap in ([1, 2, None] if k == 'B' else [1])]
             shapes += [(''.join(ks), 3, {i + 1: cap for i, kk in enumerate(ks) if kk == 'B'})
-                       for ks in itertools.product('HPB', repeat=2) for cap in ([1, 2] if 'B' in ks else [1])]
-            shapes += [('HPB', 2, {3: 1}), ('BPH', 2, {1: 2}), ('PBP', 2, {2: 1}), ('PPP', 2, {})]
+                       for ks in [('H', 'P'), ('P', 'B'), ('B', 'P'), ('B', 'B'), ('P', 'P')] for cap in ([1, 2] if 'B' in ks else [1])]
+            shapes += [('HPB', 2, {3: 1}), ('PBP', 2, {2: 1})]
         shapes = shapes + [('P', 0, {})]
         for kinds, n, caps in shapes:
             spec = serial(kinds, n, caps=caps)
             names = L.params_of(spec)
-            zps = [()] + [(x,) for x in names] if q else list(L.zero_patterns(names, max_zero=2))
+            zps = [()] + [(x,) for x in names] if q else list(L.zero_patterns(names, max_zero=1 if len(kinds) <= 2 else 0)) + \
+                ([('cs',)] if len(kinds) == 3 else [])
             if q and len(kinds) == 2:
                 zps = [(), ('cs',), ('c0',)]
             for zp in zps:
@@ -318,6 +323,9 @@ def _subs(tier, prop):
         wo = with_ops(serial('P', 1, res={'r': 1}) | {'pools': {'r': 1}}, [{'k': 'workorder', 'dev': 'p1', 't': 't0', 'tag': 'm'}],
                       maint=True, durs={'m': 'w0'})
         S.append(mk_sub('F5-work-order-starts-when-the-holder-finishes', wo, mons, zero=['cs'], pre=['t0 == c0 + c1']))
+        woh = copy.deepcopy(wo)
+        woh['ops'][0]['prio'] = 'high'      # requested before the events of that instant: START_WORK competes with the release
+        S.append(mk_sub('F5-work-order-requested-early-at-the-finish-instant', woh, mons, zero=['cs'], pre=['t0 == c0 + c1']))
         S.append(mk_sub('F5-work-order-while-holding', wo, mons, zero=['cs', 'c0']))
         S.append(mk_sub('F5-blocked-processor-offered-a-part', with_ops(resources2(2), [
             {'k': 'block', 'dev': 'p1', 't': 0, 'prio': 'high'}, {'k': 'unblock', 'dev': 'p1', 't': 't0'}]), mons, zero=['cs', 'c0']))
